@@ -87,6 +87,14 @@ Definition run_generate (fs : fsys) (ws : wanted) : fsys * list ferr :=
 Definition run_verify (fs : fsys) (ws : wanted) : fsys * list ferr :=
   (fs, flat_map (verify_file fs) ws).
 
+(* ---------- C09: DefaultFileType.AssembleFile: create (truncating), write the formatted text,
+   or, when the formatter rejects it, the unformatted text and an error ---------- *)
+Definition assemble_file (prev : option str) (text : str) (formatted : option str) : str * bool :=
+  match formatted with
+  | Some f => (f, false)
+  | None => (text, true)
+  end.
+
 (* ---------- entry points ---------- *)
 Definition d_gofile : dec gofile := fun x =>
   match x with
@@ -108,6 +116,15 @@ Definition run_boilerplate (inp : sexp) : option sexp :=
       | Some h => Some (estr (if N.eqb v 2 then go_boilerplate h bt gb yr gn
                               else load_go_boilerplate (match h with Some b => b | None => [] end) gb yr gn))
       | None => None end
+  | _ => None end.
+
+(* input: (text formatted-option previous-content-option); output (content-after error?) *)
+Definition run_write (inp : sexp) : option sexp :=
+  match inp with
+  | L [A text; fm; pv] =>
+      match dopt dstr fm, dopt dstr pv with
+      | Some fm, Some pv => let '(c, e) := assemble_file pv text fm in Some (L [estr c; ebool e])
+      | _, _ => None end
   | _ => None end.
 
 Definition d_wanted : dec wanted := dlist (dpair dstr (dpair dstr (dopt dstr))).
